@@ -22,6 +22,7 @@ def swarm_knobs(rng, tier, extra=None):
     kinds = [f for f in FAULT_KINDS if rng.random() < 0.6]
     k['fault_kinds'] = kinds or [rng.choice(FAULT_KINDS)]
     k['tier'] = tier
+    k['watch_objects'] = rng.random() < 0.3
     if extra:
         k.update(extra)
     return k
@@ -53,6 +54,35 @@ class StoreMachine(Machine):
         self.objs = {}
         self.ref = {}                # name -> {'state': 'ack'|'torn', 'snap':..., 'cfg':...}
         self.faulted = False
+
+    # ---- objects do not change behind the caller's back
+    def after_op(self, op):
+        """Every op of this machine works on (at most) one in-memory object.  In watched runs
+        the state of every live object is recorded after every op; if an op changed two distinct
+        objects, a read, write or edit of one model reached into another one."""
+        if not self.ctx.knobs.get('watch_objects'):
+            return
+        from ..globalseam import _same
+        seen = getattr(self, '_watch', {})
+        now = {}
+        changed = []
+        for slot, obj in sorted(self.objs.items()):
+            if obj is None:
+                continue
+            try:
+                sn = self.snap(obj)
+            except Exception:
+                continue                      # a torn in-memory object (interrupted read)
+            now[slot] = (obj, sn)
+            old = seen.get(slot)
+            if old is not None and old[0] is obj and not _same(old[1], sn):
+                if not any(o is obj for o in changed):
+                    changed.append(obj)
+        self._watch = now
+        self.ctx.probes['objects_watched'] += len(now)
+        if len(changed) > 1:
+            raise Violation('O5', 'op %s changed %d distinct in-memory objects; it works on one'
+                            % (op[0], len(changed)))
 
     # ---- to be provided by subclasses
     def files_of(self, name, cfg):
